@@ -441,7 +441,13 @@ impl<K: StructuralWritable, V: StructuralWritable> Encoder<MapOperation<K, V>>
 struct MessageEncoder<Inner>(Inner);
 
 #[derive(Debug, Default, Clone, Copy)]
-struct MessageDecoder<Inner>(Inner);
+struct MessageDecoder<Inner> {
+    inner: Inner,
+    /// Set while the inner decoder is waiting for more data to complete an operation. It may
+    /// already have consumed part of the frame so the front of the buffer is not necessarily
+    /// a frame header.
+    in_operation: bool,
+}
 
 impl<K, V, Inner> Encoder<MapMessage<K, V>> for MessageEncoder<Inner>
 where
@@ -484,15 +490,19 @@ where
     type Error = FrameIoError;
 
     fn decode(&mut self, src: &mut BytesMut) -> Result<Option<Self::Item>, Self::Error> {
-        let MessageDecoder(inner) = self;
-        if src.remaining() < TAG_SIZE + LEN_SIZE {
-            src.reserve(TAG_SIZE + LEN_SIZE);
-            return Ok(None);
-        }
-        let mut header = src.as_ref();
-        let total_len = header.get_u64() as usize;
-        match header.get_u8() {
-            tag @ (TAKE | DROP) => {
+        let MessageDecoder {
+            inner,
+            in_operation,
+        } = self;
+        if !*in_operation {
+            if src.remaining() < TAG_SIZE + LEN_SIZE {
+                src.reserve(TAG_SIZE + LEN_SIZE);
+                return Ok(None);
+            }
+            let mut header = src.as_ref();
+            let total_len = header.get_u64() as usize;
+            let tag = header.get_u8();
+            if tag == TAKE || tag == DROP {
                 if total_len != TAG_SIZE + LEN_SIZE {
                     return Err(FrameIoError::BadFrame(InvalidFrame::InvalidHeader {
                         problem: Text::new(BAD_RECORD_SIZE),
@@ -505,17 +515,16 @@ where
                 }
                 src.advance(TAG_SIZE + LEN_SIZE);
                 let n = src.get_u64();
-                Ok(Some(if tag == TAKE {
+                return Ok(Some(if tag == TAKE {
                     MapMessage::Take(n)
                 } else {
                     MapMessage::Drop(n)
-                }))
-            }
-            _ => {
-                let result = inner.decode(src)?;
-                Ok(result.map(Into::into))
+                }));
             }
         }
+        let result = inner.decode(src);
+        *in_operation = matches!(result, Ok(None));
+        Ok(result?.map(Into::into))
     }
 }
 
